@@ -70,6 +70,7 @@ def cases(ctx):
     rng = ctx.rng
     # the limit must be honoured whatever value it is set to, also above the default of 1000
     yield {'P': chain_pda(1100), 'words': ['a'], 'limits': [1300, 1000]}
+    yield {'P': chain_pda(1100), 'words': ['a'], 'limits': [1300.0, 2.5e3], 'no_edit': True}        # the limit need not be an int
     for i in range(60 if not thorough else 600):
         P, ws, lims = cyclic_chain_pda(rng)
         if not thorough or ctx.mine(i):
@@ -90,6 +91,10 @@ def cases(ctx):
                 P = dict(enc.canon_pda(PA.pda_to_accept_on_empty_stack(enc.build_pda(P)), False), dd=True)
             except Exception:
                 pass
+        if i % 20 == 6 and P['eps'] in ('_', '') and P['Gamma'] and 'ε' not in P['Gamma'] and 'ε' not in P['Sigma']:
+            g0 = P['Gamma'][0]         # 'ε' as an ORDINARY stack symbol of a PDA whose empty-word symbol is another one
+            f = lambda x: 'ε' if x == g0 else x
+            P = dict(P, Gamma=[f(g) for g in P['Gamma']], delta=[[p, a, f(u), [[q, f(v)] for q, v in T]] for p, a, u, T in P['delta']])
         ws = gen.all_words(P['Sigma'], 3 if len(P['Sigma']) <= 2 else 2)
         if len(ws) > 7:
             ws = ws[:3] + rng.sample(ws[3:], 4)
@@ -101,7 +106,7 @@ def lean_requests(c):
     reqs = []
     for lim in c['limits']:
         for w in c['words']:
-            reqs.append({'op': 'pda_accepts', 'P': c['P'], 'w': list(w), 'limit': lim, 'sched': c.get('sched', [])})
+            reqs.append({'op': 'pda_accepts', 'P': c['P'], 'w': list(w), 'limit': int(lim), 'sched': c.get('sched', [])})
     return reqs
 
 
